@@ -37,6 +37,8 @@ HARNESS = os.path.join(ROOT, "protoharness")
 REPO = os.path.abspath(os.environ.get("MW_REPO", "/repo"))
 JAVA_OPTS = "-Xss1g -Dtlc2.tool.queue.IStateQueue=StateDeque"
 PROP = "C20"
+# runs against another root (MW_REPO) keep their scratch files, replay files and evidence apart from those of /repo
+REPO_TAG = "" if REPO == "/repo" else "-" + hashlib.sha256(REPO.encode()).hexdigest()[:10]
 SHARDS = 8                     # ProtoGen / ProtoTrace runs side by side (1 TLC worker each)
 RANDOM_PER_MESSAGE = 24        # thorough: random valid encodings per message type (and as many mutated ones)
 RUST_KEYWORDS = {"move", "type", "mod", "use", "ref", "fn", "impl", "in", "box", "as", "async", "await", "loop", "match",
@@ -198,7 +200,7 @@ def prepare_harness(cur, ref, shared):
     if REPO == "/repo":
         d = HARNESS
     else:
-        d = os.path.join(WORK, "harness-" + hashlib.sha256(REPO.encode()).hexdigest()[:10])
+        d = os.path.join(WORK, "harness" + REPO_TAG)
         os.makedirs(os.path.join(d, "src"), exist_ok=True)
         os.makedirs(os.path.join(d, ".cargo"), exist_ok=True)
         toml = open(os.path.join(HARNESS, "Cargo.toml")).read()
@@ -251,13 +253,6 @@ def run_harness(binp, lines, workdir, tag):
 
 
 # ------------------------------------------------------------------------------------------------- vectors
-def spec_hash():
-    h = hashlib.sha256()
-    for f in ("ProtoWire.tla", "ProtoGen.tla", "ProtoGen.cfg"):
-        h.update(open(os.path.join(SPEC, f), "rb").read())
-    return h.hexdigest()[:16]
-
-
 def gen_vectors(tables, workdir):
     """TLC evaluates ProtoWire!MsgVectors for every descriptor table: {fq: [(id, bytes)]}"""
     names = sorted(tables)
@@ -469,7 +464,7 @@ def is_known(f, known):
 
 def write_replay(tag, findings, recs):
     os.makedirs(REPLAYS, exist_ok=True)
-    path = os.path.join(REPLAYS, f"{PROP}-{tag}.ndjson")
+    path = os.path.join(REPLAYS, f"{PROP}-{tag}{REPO_TAG}.ndjson")
     by_i = {r["i"]: r for r in recs}
     want = {}
     for f in findings:
@@ -526,7 +521,7 @@ def url_records(cur, oracle, obs):
 def check(tier, seed, only=None):
     t_start = time.time()
     os.makedirs(WORK, exist_ok=True)
-    workdir = os.path.join(WORK, "replay" if only else tier)
+    workdir = os.path.join(WORK, ("replay" if only else tier) + REPO_TAG)
     shutil.rmtree(workdir, ignore_errors=True)
     os.makedirs(workdir)
     cur, base, ref, oracle, shared = load_tables()
@@ -624,7 +619,7 @@ def write_evidence(res, tier, seed, real, kn):
     fields_cov = sum(sum(len(e["fs"]) for e in r["T"][r["fq"]]) for r in msgs)
     skipped = [{"message": r["fq"], "reason": "in the baseline but no longer in the source tree (reported as a finding)"}
                for r in msgs if r["missing"]]
-    skipped += [{"message": f, "reason": "generated file is not included by src/lib.rs (not part of the crate)"}
+    skipped += [{"file": f, "reason": "generated file is not included by src/lib.rs: its messages are not part of the crate"}
                 for f in res["cur"]["not_included"]]
     samples = []
     for r in msgs:
@@ -679,8 +674,11 @@ def write_evidence(res, tier, seed, real, kn):
         ],
     }
     os.makedirs(EVID, exist_ok=True)
-    with open(os.path.join(EVID, f"{PROP}.json"), "w") as f:
+    # evidence/C20.json describes /repo; a run against another root leaves its evidence next to its scratch files
+    path = os.path.join(EVID, f"{PROP}.json") if REPO == "/repo" else os.path.join(WORK, tier + REPO_TAG, f"{PROP}.json")
+    with open(path, "w") as f:
         json.dump(ev, f, indent=1)
+    log(f"[evidence] {path}")
     return ev
 
 
